@@ -20,7 +20,9 @@ out = ["# Seeded defects (written by fresh sub-agents from the property text onl
        "Each change was confirmed by `tools/seeded.py verify` in a scratch worktree (compiles, repository tests pass with it,",
        "its demonstration fails with and passes without it) and then applied to /repo (`git apply`), the quick tier of the",
        "checks was run, and the tree was restored (`git checkout -- .`).", "",
-       "| seed | confirmed | caught by (quick tier) | first failing sub-check / reason |", "|---|---|---|---|"]
+       "Round 1 = variants a, b; round 2 = variants c, d (asked to be hard to hit: sizes, boundaries, coincidences). For round 2 the",
+       "column 'before' is the outcome with the harness as it was before the generator improvements of DESIGN.md §11.5.", "",
+       "| seed | confirmed | caught by (quick tier) | before §11.5 | first failing sub-check / reason |", "|---|---|---|---|---|"]
 caught = 0
 for name, m, notes in rows:
     cb = m.get("caught_by", [])
@@ -29,7 +31,10 @@ for name, m, notes in rows:
     reason = ""
     for c in cb[:1]:
         reason = m["checks"][c]["reason"].replace("|", "\\|")[:220]
-    out.append(f"| {name} | {'yes' if m.get('confirmed') else 'NO'} | {', '.join(cb) if cb else '**missed**' if 'checks' in m else 'not run'} | {reason} |")
+    before = ""
+    if "checks_before" in m:
+        before = ", ".join(m.get("caught_by_before", [])) or "missed"
+    out.append(f"| {name} | {'yes' if m.get('confirmed') else 'NO'} | {', '.join(cb) if cb else '**missed**' if 'checks' in m else 'not run'} | {before} | {reason} |")
 out += ["", f"{caught} of {len(rows)} seeded changes are caught by the quick tier of at least one check.", ""]
 open("/verif/seeded/RESULTS.md", "w").write("\n".join(out))
 print(f"{caught}/{len(rows)} caught")
